@@ -58,6 +58,7 @@ pub struct Run {
     pub at: usize,
     pub setup: Setup,
     pub run_id: u64,
+    pub digest_kind: String,
 }
 
 fn jstr(v: &Value, k: &str) -> String {
@@ -102,7 +103,7 @@ impl Run {
             let a = mk_addr(&format!("{np}valoper"), n, 20);
             w.names.add(n, &a);
         }
-        Run { w, at: 0, setup, run_id }
+        Run { w, at: 0, setup, run_id, digest_kind: "staking".into() }
     }
 
     pub fn ad(&self, n: &str) -> String {
@@ -446,6 +447,59 @@ impl Run {
                 let msg = self.update_config_msg(&call);
                 self.w.tx_execute(&sender, &msg, &[], &tenv)
             }
+            // ------------------------------------------------------------ treasury contract
+            "t_instantiate" => {
+                use cosmwasm_std::Api;
+                let api = crate::store::ChainApi { prefix: self.w.prefix.clone() };
+                let admin = jstr(&call, "admin");
+                let trader = jstr(&call, "trader");
+                let a = if admin.is_empty() { None } else { Some(self.ad(&admin)) };
+                let t = if trader.is_empty() { None } else { Some(self.ad(&trader)) };
+                call["avalid"] = json!(a.as_ref().map(|x| api.addr_validate(x).is_ok()).unwrap_or(true)
+                    && t.as_ref().map(|x| api.addr_validate(x).is_ok()).unwrap_or(true));
+                let msg = json!({"admin": a, "trader": t, "allowed_swap_routes": routes_json(&call["routes"])});
+                self.w.tx_treasury("instantiate", &sender, &msg)
+            }
+            "t_swap_in" | "t_swap_out" => {
+                let hops = route_json(&call["route"]);
+                let coin = json!({"denom": jstr(&call, "den"), "amount": ju(&call, "amt").to_string()});
+                let lim = ju(&call, "limit").to_string();
+                let msg = if m == "t_swap_in" {
+                    json!({"swap_exact_amount_in": {"routes": hops, "token_in": coin, "token_out_min_amount": lim}})
+                } else {
+                    json!({"swap_exact_amount_out": {"routes": hops, "token_out": coin, "token_in_max_amount": lim}})
+                };
+                self.w.tx_treasury("execute", &sender, &msg)
+            }
+            "t_spend" => {
+                let rcv = self.ad(&jstr(&call, "receiver"));
+                call["rosmo"] = json!(is_bech32_with_prefix(&rcv, "osmo"));
+                call["rcel"] = json!(is_bech32_with_prefix(&rcv, "celestia"));
+                let ch = jstr(&call, "channel");
+                let msg = json!({"spend_funds": {"amount": {"denom": self.ad(&jstr(&call, "den")), "amount": ju(&call, "amt").to_string()},
+                    "receiver": rcv, "channel_id": if ch.is_empty() { Value::Null } else { json!(ch) }}});
+                self.w.tx_treasury("execute", &sender, &msg)
+            }
+            "t_update_config" => {
+                use cosmwasm_std::Api;
+                let api = crate::store::ChainApi { prefix: self.w.prefix.clone() };
+                let ht = call["has_trader"].as_bool().unwrap_or(false);
+                let hr = call["has_routes"].as_bool().unwrap_or(false);
+                let tr = self.ad(&jstr(&call, "trader"));
+                call["tvalid"] = json!(!ht || api.addr_validate(&tr).is_ok());
+                let msg = json!({"update_config": {"trader": if ht { json!(tr) } else { Value::Null },
+                    "allowed_swap_routes": if hr { routes_json(&call["routes"]) } else { Value::Null }}});
+                self.w.tx_treasury("execute", &sender, &msg)
+            }
+            "t_transfer_ownership" => {
+                use cosmwasm_std::Api;
+                let api = crate::store::ChainApi { prefix: self.w.prefix.clone() };
+                let to = self.ad(&jstr(&call, "to"));
+                call["tvalid"] = json!(api.addr_validate(&to).is_ok());
+                self.w.tx_treasury("execute", &sender, &json!({"transfer_ownership": {"new_owner": to}}))
+            }
+            "t_accept_ownership" => self.w.tx_treasury("execute", &sender, &json!({"accept_ownership": {}})),
+            "t_revoke_ownership_transfer" => self.w.tx_treasury("execute", &sender, &json!({"revoke_ownership_transfer": {}})),
             other => TxOut { ok: false, err: format!("harness: unknown abstract call {other}"), ..Default::default() },
         };
         (call, out)
@@ -513,4 +567,14 @@ pub fn setup_from_call(call: &Value) -> Setup {
         monitors: c["monitors"].as_array().map(|a| a.iter().map(|x| x.as_str().unwrap_or("").to_string()).collect()).unwrap_or_default(),
         sub: { let s = jstr(c, "sub"); if s.is_empty() { "stTIA".to_string() } else { s } },
     }
+}
+
+fn route_json(route: &Value) -> Value {
+    json!(route
+        .as_array()
+        .map(|h| h.iter().map(|x| json!({"pool_id": x["pool"], "token_in_denom": x["din"], "token_out_denom": x["dout"]})).collect::<Vec<_>>())
+        .unwrap_or_default())
+}
+fn routes_json(routes: &Value) -> Value {
+    json!(routes.as_array().map(|a| a.iter().map(route_json).collect::<Vec<_>>()).unwrap_or_default())
 }
